@@ -25,6 +25,7 @@ package eviction
 
 //@ func NewCacheLRU props C08
 //@   ensures isfresh: fresh(result) && fresh(result.keys) && len(result.entries) == 0 && result.Mutex != nil && fresh(result.Mutex)
+//@   ensures allocd: allocated(result.keys) && allocated(result.Mutex)
 //@   ensures wf: inv(result, alloc) && inv(result, wf) && inv(result, keyed) && inv(result, backed) && inv(result, uniq)
 //@   ensures nokeys: forall k string :: !has(result.keys, k)
 //@   modifies nothing
@@ -103,6 +104,7 @@ package eviction
 
 //@ func NewCacheLFU props C08
 //@   ensures isfresh: fresh(result) && fresh(result.keys) && len(result.entries) == 0 && result.Mutex != nil && fresh(result.Mutex)
+//@   ensures allocd: allocated(result.keys) && allocated(result.Mutex)
 //@   ensures wf: inv(result, alloc) && inv(result, wf) && inv(result, keyed) && inv(result, backed) && inv(result, uniq)
 //@   ensures nokeys: forall k string :: !has(result.keys, k)
 //@   modifies nothing
